@@ -11,6 +11,6 @@ CONSTANTS
   SPURIOUS = TRUE
   MaxSpur = 1
   EMIT = TRUE
-INVARIANTS C16Safety ImplInv Emit
+INVARIANTS C16Safety C16Wake ImplInv Emit
 VIEW NoHist
 CHECK_DEADLOCK FALSE
